@@ -69,3 +69,13 @@ Fixpoint sx_of_val (v : ModelEncodeNested.val) : sx :=
   | ModelEncodeNested.VList l => L_ (map sx_of_val l)
   end.
 Definition run_encode_nested (x : sx) : sx := sx_of_val (ModelEncodeNested.encode (val_of 12 x)).
+
+(* sparse rows.  request: (name ((key () | (j)) (0 z) | (1 i n)) ...)) -> ((key suffix-or--1 z) ...) of the row after the flat one-hot step for `name` *)
+From Coba Require C13.ModelEncodeSparse.
+Definition run_encode_sparse (x : sx) : sx :=
+  let item := fun e => ((as_z (nth_sx 0 e), as_opt as_nat (nth_sx 1 e)),
+                        match as_z (nth_sx 0 (nth_sx 2 e)) with 0 => ModelEncodeSparse.SNum (as_z (nth_sx 1 (nth_sx 2 e)))
+                        | _ => ModelEncodeSparse.SCat (as_nat (nth_sx 1 (nth_sx 2 e))) (as_nat (nth_sx 2 (nth_sx 2 e))) end) in
+  let out := ModelEncodeSparse.flat1 (as_z (nth_sx 0 x)) (map item (as_l (nth_sx 1 x))) in
+  L_ (map (fun kv => L_ [Z_ (fst (fst kv)); match snd (fst kv) with Some j => of_nat j | None => Z_ (-1) end;
+                         match snd kv with ModelEncodeSparse.SNum z => Z_ z | ModelEncodeSparse.SCat _ _ => Z_ (-99) end]) out).
